@@ -31,6 +31,42 @@ func blocksCalling(r *core.Run, fn *ssa.Function, callees ...string) map[*ssa.Ba
 	return out
 }
 
+// alwaysCalls: every path through g to a return passes a call of callee (directly or through such a wrapper).
+func alwaysCalls(r *core.Run, g *ssa.Function, callee string, depth int) bool {
+	if depth > 2 || len(g.Blocks) == 0 {
+		return false
+	}
+	blk := blocksCallingDeep(r, g, callee, depth+1)
+	if len(blk) == 0 {
+		return false
+	}
+	return forwardAvoid(g.Blocks[0], blk, nil, isReturnBlock) == nil
+}
+
+// blocksCallingDeep: blocks calling callee, or a module wrapper that always calls it.
+func blocksCallingDeep(r *core.Run, fn *ssa.Function, callee string, depth int) map[*ssa.BasicBlock]bool {
+	out := map[*ssa.BasicBlock]bool{}
+	for _, b := range fn.Blocks {
+		for _, ins := range b.Instrs {
+			if c, ok := ins.(ssa.CallInstruction); ok {
+				name, callees := term.CalleeName(r.P, c.Common())
+				if name == callee {
+					out[b] = true
+					continue
+				}
+				if depth <= 2 {
+					for _, g := range callees {
+						if g != fn && alwaysCalls(r, g, callee, depth) {
+							out[b] = true
+						}
+					}
+				}
+			}
+		}
+	}
+	return out
+}
+
 // callsIn lists call instructions to the named callee.
 func callsIn(r *core.Run, fn *ssa.Function, callee string) []ssa.CallInstruction {
 	var out []ssa.CallInstruction
@@ -272,4 +308,32 @@ func errNonNilAt(r *core.Run, fn *ssa.Function, b *ssa.BasicBlock, v ssa.Value, 
 	t := r.Resolver(fn).Of(v).String()
 	ok, _ := ck.MustPass(b, []guard.Atom{guard.Ne(guard.Exact(t), "nil")})
 	return ok
+}
+
+// rangedOver: for a range-over-slice loop (header test `i+1 < len(X)`), the term of X with memory markers
+// removed; "" for other loops. The term is that of the slice itself, so callers can require e.g. a field access
+// `<record>.Shards` rather than any value whose derivation mentions one.
+func rangedOver(r *core.Run, f *ssa.Function, l *cfgx.Loop) string {
+	iff := cfgx.IfOf(l.Header)
+	if iff == nil {
+		return ""
+	}
+	bo, ok := iff.Cond.(*ssa.BinOp)
+	if !ok {
+		return ""
+	}
+	lc, ok := bo.Y.(*ssa.Call)
+	if !ok || len(lc.Call.Args) != 1 {
+		return ""
+	}
+	if bi, ok := lc.Call.Value.(*ssa.Builtin); !ok || bi.Name() != "len" {
+		return ""
+	}
+	return normT(r.Resolver(f).Of(lc.Call.Args[0]).String())
+}
+
+// rangesField: the loop ranges over a field access ending in .<field> (not a derived list).
+func rangesField(r *core.Run, f *ssa.Function, l *cfgx.Loop, field string) bool {
+	t := rangedOver(r, f, l)
+	return t != "" && strings.HasSuffix(t, "."+field) && !strings.HasPrefix(t, "phi(") && !strings.HasPrefix(t, "builtin.append(")
 }
